@@ -143,21 +143,25 @@ def run(ctx):
     ctx.ob('C14.3', rw, 'error-exit-through-undo', bool(loops_after) and not any(x in r for x in rw.returns()), 'after a failed apply every path to the return passes the restore loop', line=call.line)
 
     # ---------------------------------------------------------------- C14.4
+    from .c13 import build_taint
+    T, _src = build_taint(P)
     cc = P.fn('rip_workspace::Workspace::create_checkpoint')
     ctx.touch(cc)
-    files_l = [i for i in range(1, cc.argc + 1) if cc.lname(i) == 'files'][0]
     n = 0
+    probe_roots = []
     for s in cc.calls(r'^std::path::Path::(exists|is_file)$|^std::fs::(read|metadata)$'):
         n += 1
-        src = sources(cc, s.args[0])
-        via = any(x[0] == 'call' and re.search(r'Workspace::(to_relative|safe_join)$', x[1]) for x in src)
-        raw = files_l in reads_locals(cc, s.args[0]) and not via
-        ctx.ob('C14.4', cc, 'one-base:' + s.name, via and not raw, '%s operand %s' % (s.name, 'derives from the resolver result (resolved against the workspace root)' if via and not raw else
-                                                                                    'is the RAW caller path: a relative path is tested / read against the process working directory while the copy is stored under the root-relative name'), line=s.line)
+        raw = T.tainted(cc, s.args[0], s.bb)
+        probe_roots.append({l for l in reads_locals(cc, s.args[0]) if cc.locals[l].get('n')})
+        ctx.ob('C14.4', cc, 'one-base:' + s.name, not raw, '%s operand %s' % (s.name, 'derives from resolved (root-relative) values only' if not raw else
+                                                                           'is the RAW caller path: a relative path is tested / read against the process working directory while the copy is stored under the root-relative name'), line=s.line)
     ctx.floor('C14.4', 'existence / read sites in create_checkpoint', n, 2)
     for (bi, si, st) in cc.aggregates(r'^rip_workspace::CheckpointFile$'):
         rv = st['rv']
         op = rv['a'][rv['fields'].index('path')]
-        src = sources(cc, op)
-        ok = any(x[0] == 'call' and x[1].endswith('Workspace::to_relative') for x in src)
-        ctx.ob('C14.4', cc, 'stored-path-relative', ok, 'CheckpointFile.path is the resolver result', line=st.get('ln'))
+        raw = T.tainted(cc, op, bi)
+        stored = {l for l in reads_locals(cc, op) if cc.locals[l].get('n')}
+        common = any(stored & pr for pr in probe_roots)
+        ctx.ob('C14.4', cc, 'stored-path-relative', not raw and common,
+               'CheckpointFile.path %s' % ('is the resolved relative path and shares its origin (%s) with the path that was tested / read' % sorted(cc.lname(l) for l in stored)[:3] if not raw and common else
+                                           'is not the resolved path that was tested / read'), line=st.get('ln'))
